@@ -221,6 +221,9 @@ def generate(rng, tier):
         cells = rand_cells(g, r, c, 1, 2)
         b = ('T', r, c, triplets_of(g, cells, elt)) if h % 3 else vecs_of(g, r, c, cells, elt)
         cases.append(mk(elt, b, rand_ops(g, r, c, cells, g.range(2, 6), elt), "history-" + elt))
+    # spread the expensive cases evenly over the Coq shards (the engine cuts the list into consecutive runs of 250)
+    k = max(1, (len(cases) + 249) // 250)
+    cases = [c for r in range(k) for c in cases[r::k]]
     return cases
 
 def case_from_json(j):
